@@ -225,7 +225,7 @@ func (c *Ctx) checkAtomic(s *State, fc *FuncContract) {
 	why := ""
 	for _, ev := range s.trace {
 		switch {
-		case strings.HasPrefix(ev.Name, "lock:"):
+		case strings.HasPrefix(ev.Name, "lock:"), strings.HasPrefix(ev.Name, "rlock:"):
 			locks++
 			inCS = true
 		case strings.HasPrefix(ev.Name, "unlock:"):
@@ -246,7 +246,7 @@ func (c *Ctx) checkAtomic(s *State, fc *FuncContract) {
 
 func (c *Ctx) pathLocksLater(s *State, at Event) bool {
 	for _, ev := range s.trace {
-		if ev.Seq > at.Seq && strings.HasPrefix(ev.Name, "lock:") {
+		if ev.Seq > at.Seq && (strings.HasPrefix(ev.Name, "lock:") || strings.HasPrefix(ev.Name, "rlock:")) {
 			return true
 		}
 	}
